@@ -192,6 +192,30 @@ func verifWait() bool {
 
 var verifWaits atomic.Int64
 
+// verifAwaitClose blocks until ch is closed (true) or the deadline (unix ms; 0: none) passes (false).
+// Natively it really waits; the engine lets everybody else run first and, when nothing else can
+// happen, fires the earliest deadline on its virtual clock.
+func verifAwaitClose(ch chan struct{}, deadlineMs int64) bool {
+	if deadlineMs == 0 {
+		<-ch
+		return true
+	}
+	d := time.Until(time.UnixMilli(deadlineMs))
+	if d > 20*time.Second {
+		d = 20 * time.Second
+	}
+	select {
+	case <-ch:
+		return true
+	case <-time.After(d):
+		return false
+	}
+}
+
+// verifWaitDL is verifWait for an operation with a deadline (unix ms, 0: none): when nothing else
+// can happen any more, the poller with the earliest deadline is the one told so first.
+func verifWaitDL(deadlineMs int64) bool { return verifWait() }
+
 func verifPollContexts() {}
 
 // verifClockAdvanceTo: natively a blocked read really waits for its deadline (at most 20 s, so that
